@@ -20,7 +20,12 @@
      - an operator of the symbol set directly followed by '=' where later PICO-8 versions
        have a compound assignment operator that is not in the dialect's set (\= ^= |= &= ^^=
        <<= >>= >>>= <<>= >><=);
-     - a raw line break inside a quoted string (a lexical error in Lua). *)
+     - a raw line break inside a quoted string (a lexical error in Lua);
+     - any source containing a carriage return that is not directly followed by a line feed (Lua
+       also takes a lone CR and LF CR as line breaks; PICO-8 carts use LF, Windows editors CR LF; what
+       PICO-8 does with the other two is not established, and the property text names LF and CR LF).
+       Line breaks are therefore the newline tokens LF and CR LF.  [spec_advance] still follows Lua's
+       counting rule literally; on this domain it counts exactly the line feeds. *)
 From PV Require Import Base.Prelude.
 
 Inductive skind : Set :=
@@ -390,15 +395,11 @@ Definition spec_step (s : list Z) : option (stok * list Z) :=
   | c :: r =>
     if is_blank c then
       let '(a, b) := span is_blank s in Some (mk SSpace a a, b)
-    else if c =? 10 then
-      match r with
-      | 13 :: r' => Some (mk SNewline [10; 13] [10; 13], r')
-      | _ => Some (mk SNewline [10] [10], r)
-      end
+    else if c =? 10 then Some (mk SNewline [10] [10], r)
     else if c =? 13 then
       match r with
       | 10 :: r' => Some (mk SNewline [13; 10] [13; 10], r')
-      | _ => Some (mk SNewline [13] [13], r)
+      | _ => None                           (* a carriage return that is not part of CR LF: undefined *)
       end
     else if c =? 45 then
       match r with
@@ -492,8 +493,15 @@ Fixpoint spec_lex_fuel (fuel : nat) (line col : Z) (s : list Z) (acc : list stok
     end
   end.
 
+(* line ends of the dialect are LF and CR LF: every carriage return is directly followed by a line feed *)
+Fixpoint crlf_only (s : list Z) : bool :=
+  match s with
+  | [] => true
+  | c :: r => (if c =? 13 then match r with 10 :: _ => true | _ => false end else true) && crlf_only r
+  end.
+
 Definition spec_lex (src : list Z) : option (list stok) :=
-  spec_lex_fuel (length src) 0 0 src [].
+  if crlf_only src then spec_lex_fuel (length src) 0 0 src [] else None.
 
 (* significant tokens and views (DESIGN section 8) *)
 Definition is_trivia (t : stok) : bool :=
